@@ -33,6 +33,7 @@ CONSTANTS
   Masks,       \* interest codes an add may use (1 = R, 2 = W, 4 = C, sums)
   ETs,         \* subset of {0, 1}: trigger modes an add may use (1 = EV_ET)
   Keeper,      \* fds (slots) whose file is also held by a second descriptor
+  Kinds,       \* sequence: kind of each fd slot ("sp" | "tcp" | "pr" | "pw")
   Acts,        \* names of the actions the generator may use
   D,           \* bound on Len(hist)
   AvoidKnown   \* TRUE: exclude the trigger of known finding "changelist-stale-et" from generation
@@ -219,50 +220,26 @@ KnownTrigger(S, f, m, et) ==
   /\ Backend = "epollcl" /\ ~et /\ ClIdx(S, f) # 0
   /\ \E b \in Bits : S.cl[ClIdx(S, f)].ch[b].c = "del" /\ S.cl[ClIdx(S, f)].ch[b].et
 
-EvAdd ==
-  /\ "add" \in Acts /\ FreeEv(st) # {}
-  /\ \E f \in Fds, mc \in Masks, etc \in ETs :
-       LET e == LowestFree(st)
-           m == SetOf(mc)
-           et == etc = 1
-       IN /\ st.open[f] /\ ~st.stale[f] /\ UniformET(st, f, et)
-          /\ m \subseteq Supported
-          /\ (AvoidKnown => ~KnownTrigger(st, f, m, et))
-          /\ LET R == EvmapAdd(st, e, f, m, et) IN
-             /\ st' = [R.s EXCEPT !.atwait = FALSE]
-             /\ hist' = Append(hist, [a |-> "add", e |-> e, fd |-> f, m |-> mc, et |-> etc, o |-> [r |-> R.r]])
-
-EvDel ==
-  /\ "del" \in Acts
-  /\ \E e \in Evs :
-       /\ st.ev[e].on
-       /\ LET R == EvmapDel(st, e) IN
-          /\ st' = [R.s EXCEPT !.atwait = FALSE]
-          \* event_del on a closed fd may report the failed kernel operation: left open
-          /\ hist' = Append(hist, [a |-> "del", e |-> e,
-                                   o |-> [r |-> IF st.open[st.ev[e].fd] THEN 0 ELSE [_any |-> TRUE]]])
-
-CloseFd ==
-  /\ "close" \in Acts
-  /\ \E f \in Fds :
-       /\ st.open[f]
-       /\ st' = [st EXCEPT !.open[f] = FALSE, !.atwait = FALSE,
-                           !.stale[f] = \E b \in Bits : st.n[f][b] > 0,
-                           !.kreg[f] = IF f \in Keeper THEN @ ELSE NoReg,
-                           !.sock[f] = FreshSock, !.edge[f] = {}]
-       /\ hist' = Append(hist, [a |-> "close", fd |-> f, o |-> [r |-> 0]])
-
-ReopenFd ==
-  /\ "close" \in Acts
-  /\ \E f \in Fds :
-       /\ ~st.open[f]
-       /\ st' = [st EXCEPT !.open[f] = TRUE, !.atwait = FALSE]
-       /\ hist' = Append(hist, [a |-> "reopen", fd |-> f, o |-> [r |-> 0]])
+(* ---- step functions (used by the actions below and by Backend_Trace) ---- *)
+AddLegal(S, e, f, m, et) ==
+  /\ ~S.ev[e].on /\ S.open[f] /\ ~S.stale[f] /\ UniformET(S, f, et) /\ m # {} /\ m \subseteq Supported
+  /\ (et => IsEpoll)
+AddStep(S, e, f, m, et) ==
+  LET R == EvmapAdd(S, e, f, m, et) IN [s |-> [R.s EXCEPT !.atwait = FALSE], r |-> R.r]
+DelStep(S, e) ==
+  LET R == EvmapDel(S, e) IN [s |-> [R.s EXCEPT !.atwait = FALSE], r |-> R.r]
+CloseStep(S, f) ==
+  [S EXCEPT !.open[f] = FALSE, !.atwait = FALSE,
+            !.stale[f] = \E b \in Bits : S.n[f][b] > 0,
+            !.kreg[f] = IF f \in Keeper THEN @ ELSE NoReg,
+            !.sock[f] = IF f \in Keeper THEN @ ELSE FreshSock, !.edge[f] = {}]
+ReopenStep(S, f) == [S EXCEPT !.open[f] = TRUE, !.atwait = FALSE]
 
 (* the part of dispatch before the system call *)
 PreWait(S) == IF Backend = "epollcl" THEN ApplyChangesFrom(S, 1) ELSE S
+WaitStep(S) == [PreWait(S) EXCEPT !.atwait = TRUE, !.edge = [f \in Fds |-> {}]]
 
-(* Environment assumptions under which the property is claimed:
+(* Environment assumptions under which the properties are claimed:
    - an fd closed while events were added on it has had all of them deleted;
    - no registration of a file that is kept alive by another descriptor has been
      orphaned by closing the fd before deleting its events (the kernel keeps such
@@ -271,13 +248,137 @@ WaitLegal(S) ==
   /\ \A f \in Fds : ~S.stale[f]
   /\ \A f \in Keeper : (\A b \in Bits : S.n[f][b] = 0) => ~PreWait(S).kreg[f].on
 
+(* ---- environment (C04): what the peer / the application does to the fd.
+   Kinds[f]: "sp" UNIX socketpair end, "tcp" loopback TCP socket, "pr" read end
+   of a pipe, "pw" write end of a pipe.  The abstract socket state only steers
+   the generator and defines `edge` (genuine new transitions, for edge-triggered
+   events); what holds on an fd is always taken from the poll(2) probe. *)
+Kind(f) == Kinds[f]
+EnvOps == {"pw", "drain", "fill", "pdrain", "pshut", "pclose", "prst"}
+EnvLegal(S, a, f) ==
+  LET k == S.sock[f] IN
+  /\ S.open[f]
+  /\ CASE a = "pw"     -> Kind(f) \in {"sp", "tcp", "pr"} /\ ~k.rdhup /\ ~k.hup
+       [] a = "drain"  -> Kind(f) \in {"sp", "tcp", "pr"} /\ k.data /\ ~k.hup
+       [] a = "fill"   -> Kind(f) \in {"sp", "tcp", "pw"} /\ ~k.full /\ ~k.hup
+       [] a = "pdrain" -> Kind(f) \in {"sp", "tcp", "pw"} /\ k.full /\ ~k.hup
+       [] a = "pshut"  -> Kind(f) \in {"sp", "tcp"} /\ ~k.rdhup /\ ~k.hup
+       [] a = "pclose" -> ~k.hup
+       [] a = "prst"   -> Kind(f) = "tcp" /\ ~k.hup
+       [] OTHER -> FALSE
+EnvStep(S, a, f) ==
+  LET S1 == [S EXCEPT !.atwait = FALSE] IN
+  CASE a = "pw"     -> [S1 EXCEPT !.sock[f].data = TRUE, !.edge[f] = IF S.sock[f].data THEN @ ELSE @ \cup {"R"}]
+    [] a = "drain"  -> [S1 EXCEPT !.sock[f].data = FALSE, !.edge[f] = @ \ {"R"}]
+    [] a = "fill"   -> [S1 EXCEPT !.sock[f].full = TRUE, !.edge[f] = @ \ {"W"}]
+    [] a = "pdrain" -> [S1 EXCEPT !.sock[f].full = FALSE, !.edge[f] = @ \cup {"W"}]
+    [] a = "pshut"  -> [S1 EXCEPT !.sock[f].rdhup = TRUE, !.edge[f] = @ \cup {"C"}]
+    [] OTHER        -> [S1 EXCEPT !.sock[f].hup = TRUE]
+
+(* ---- C04: the dispatch oracle.  P1 / P2 are the zero-timeout poll(2) probes of
+   every fd immediately before and after the loop iteration (bit codes: 1 IN,
+   2 OUT, 4 RDHUP, 8 HUP, 16 ERR, 32 NVAL; -1 closed); rep is what the kernel
+   reported to the backend's wait call, cbs the callbacks that ran. *)
+HasBit(n, v) == n >= 0 /\ ((n \div v) % 2) = 1
+MayOf(p) == (IF HasBit(p, 1) \/ HasBit(p, 8) \/ HasBit(p, 16) \/ HasBit(p, 32) THEN {"R"} ELSE {})
+            \cup (IF HasBit(p, 2) \/ HasBit(p, 8) \/ HasBit(p, 16) \/ HasBit(p, 32) THEN {"W"} ELSE {})
+            \cup (IF HasBit(p, 4) THEN {"C"} ELSE {})
+(* named deviation: epoll reports EPOLLERR as READ|WRITE only, so early-close is
+   not demanded while an error is pending *)
+SureOf(p) == (IF HasBit(p, 1) THEN {"R"} ELSE {}) \cup (IF HasBit(p, 2) THEN {"W"} ELSE {})
+             \cup (IF HasBit(p, 4) /\ ~HasBit(p, 16) THEN {"C"} ELSE {})
+May(P1, P2, f) == (MayOf(P1[f]) \cup MayOf(P2[f])) \cap Supported
+Sure(P1, P2, f) == SureOf(P1[f]) \cap SureOf(P2[f]) \cap Supported
+(* epoll_dispatch's translation of a reported mask *)
+Translate(p) == IF HasBit(p, 16) \/ (HasBit(p, 8) /\ ~HasBit(p, 4)) THEN {"R", "W"}
+                ELSE (IF HasBit(p, 1) THEN {"R"} ELSE {}) \cup (IF HasBit(p, 2) THEN {"W"} ELSE {})
+                     \cup (IF HasBit(p, 4) THEN {"C"} ELSE {})
+RepOf(rep, f) == IF \E i \in DOMAIN rep : rep[i].fd = f THEN rep[CHOOSE i \in DOMAIN rep : rep[i].fd = f].p ELSE 0
+Fired(cbs) == {cbs[i].e : i \in DOMAIN cbs}
+CbOf(cbs, e) == cbs[CHOOSE i \in DOMAIN cbs : cbs[i].e = e]
+
+(* S: the state at the system call (after PreWait, edge not yet cleared) *)
+OnlyAdded(S, cbs) == \A i \in DOMAIN cbs : cbs[i].e \in Evs /\ S.ev[cbs[i].e].on          \* NoCallbackAfterDel
+AtMostOnce(cbs) == \A i, j \in DOMAIN cbs : i # j => cbs[i].e # cbs[j].e
+OnlyRequestedReady(S, P1, P2, cbs) ==
+  \A i \in DOMAIN cbs : LET e == cbs[i].e  w == SetOf(cbs[i].w) IN
+     S.ev[e].on => (w # {} /\ w \subseteq (S.ev[e].m \cap May(P1, P2, S.ev[e].fd)))
+LevelPersistence(S, P1, P2, cbs) ==
+  \A e \in Evs : (S.ev[e].on /\ ~S.ev[e].et /\ S.ev[e].m \cap Sure(P1, P2, S.ev[e].fd) # {}) => e \in Fired(cbs)
+EdgeOnlyReported(S, rep, cbs) ==
+  \A i \in DOMAIN cbs : LET e == cbs[i].e IN
+     (S.ev[e].on /\ S.ev[e].et) => SetOf(cbs[i].w) \subseteq Translate(RepOf(rep, S.ev[e].fd))
+EdgeFires(S, P1, P2, cbs) ==
+  \A e \in Evs : (S.ev[e].on /\ S.ev[e].et /\ S.edge[S.ev[e].fd] \cap S.ev[e].m \cap Sure(P1, P2, S.ev[e].fd) # {})
+                   => e \in Fired(cbs)
+(* the abstract socket state agrees with the probe (a failure is an error of the harness, not of libevent) *)
+ModelOK(S, P1) ==
+  \A f \in Fds : (S.open[f] /\ ~S.sock[f].hup) =>
+     /\ (S.sock[f].data => HasBit(P1[f], 1))
+     /\ ((~S.sock[f].data /\ ~S.sock[f].rdhup) => ~HasBit(P1[f], 1))
+     /\ (Kind(f) # "pr" => (S.sock[f].full <=> ~HasBit(P1[f], 2)))
+     /\ (S.sock[f].rdhup => HasBit(P1[f], 4))
+Verdict(S, P1, P2, rep, cbs) ==
+  IF ~ModelOK(S, P1) THEN "model"
+  ELSE IF ~OnlyAdded(S, cbs) THEN "NoCallbackAfterDel"
+  ELSE IF ~AtMostOnce(cbs) THEN "AtMostOnce"
+  ELSE IF ~OnlyRequestedReady(S, P1, P2, cbs) THEN "OnlyRequestedReady"
+  ELSE IF ~LevelPersistence(S, P1, P2, cbs) THEN "LevelTriggeredPersistence"
+  ELSE IF ~EdgeOnlyReported(S, rep, cbs) THEN "EdgeOnlyWhenReported"
+  ELSE IF ~EdgeFires(S, P1, P2, cbs) THEN "EdgeFiresOnTransition"
+  ELSE ""
+
+----------------------------------------------------------------------------
+(* Actions *)
+EvAdd ==
+  /\ "add" \in Acts /\ FreeEv(st) # {}
+  /\ \E f \in Fds, mc \in Masks, etc \in ETs :
+       LET e == LowestFree(st)
+           m == SetOf(mc)
+           et == etc = 1
+       IN /\ AddLegal(st, e, f, m, et)
+          /\ (AvoidKnown => ~KnownTrigger(st, f, m, et))
+          /\ LET R == AddStep(st, e, f, m, et) IN
+             /\ st' = R.s
+             /\ hist' = Append(hist, [a |-> "add", e |-> e, fd |-> f, m |-> mc, et |-> etc, o |-> [r |-> R.r]])
+
+EvDel ==
+  /\ "del" \in Acts
+  /\ \E e \in Evs :
+       /\ st.ev[e].on
+       /\ st' = DelStep(st, e).s
+       \* event_del on a closed fd may report the failed kernel operation: left open
+       /\ hist' = Append(hist, [a |-> "del", e |-> e,
+                                o |-> [r |-> IF st.open[st.ev[e].fd] THEN 0 ELSE [_any |-> TRUE]]])
+
+CloseFd ==
+  /\ "close" \in Acts
+  /\ \E f \in Fds :
+       /\ st.open[f]
+       /\ st' = CloseStep(st, f)
+       /\ hist' = Append(hist, [a |-> "close", fd |-> f, o |-> [r |-> 0]])
+
+ReopenFd ==
+  /\ "close" \in Acts
+  /\ \E f \in Fds :
+       /\ ~st.open[f]
+       /\ st' = ReopenStep(st, f)
+       /\ hist' = Append(hist, [a |-> "reopen", fd |-> f, o |-> [r |-> 0]])
+
+Env ==
+  /\ "env" \in Acts
+  /\ \E f \in Fds, a \in EnvOps :
+       /\ EnvLegal(st, a, f)
+       /\ st' = EnvStep(st, a, f)
+       /\ hist' = Append(hist, [a |-> a, fd |-> f, o |-> [x |-> [_any |-> TRUE]]])
+
 Wait ==
   /\ "wait" \in Acts /\ WaitLegal(st)
-  /\ st' = [PreWait(st) EXCEPT !.atwait = TRUE]
+  /\ st' = WaitStep(st)
   /\ hist' = Append(hist, [a |-> "wait", o |-> [r |-> 0, k |-> KObs(st')]])
 
 Init == st = InitSt /\ hist = <<>>
-Next == EvAdd \/ EvDel \/ CloseFd \/ ReopenFd \/ Wait
+Next == EvAdd \/ EvDel \/ CloseFd \/ ReopenFd \/ Env \/ Wait
 Spec == Init /\ [][Next]_vars
 
 Inv == TypeOK /\ InterestOK /\ CountsOK /\ PollArrayOK /\ ChangelistOK
